@@ -568,6 +568,31 @@ theorem server_verifySortition_lenient_counterexample : ¬ server_verifySortitio
   revert this
   decide
 
+/-- **Step binding on the live entry point.** `server_verifyPriority_binds` holds for whatever step the caller passes;
+    it is the CALLER (`Proposal.process*Message`) that pins the step to `Propose`. With that pin, a priority message is
+    recorded only if its credential verifies as a PROPOSE-step credential for (seed, index) — whatever Step the sender
+    wrote into the payload, in particular a credential honestly issued for another step is refused. -/
+theorem proposal_records_only_propose_credentials {SK PK Proof Rand : Type} (V : Vrf SK PK Proof Rand)
+    (cdf : F64 → Nat → F64) (K : List UInt8 → List UInt8) (pk : PK) (seed : List UInt8) (index msgStep : Nat)
+    (proof : Proof) (priority : List UInt8) (sub : Nat) (s : Stakes)
+    (h : proposalRecords V cdf K pk seed index msgStep proof priority sub s = .accept) :
+    verifyPriority V cdf K pk seed index proposeStep proof priority sub s = .accept :=
+  server_verifyPriority_binds V cdf K pk seed index proposeStep proof priority sub s h
+
+/-- … and under VRF-B + `makeM_injective` such a credential cannot also verify for another step:
+    one proof is never both a Propose credential and a credential of step `st ≠ Propose`. -/
+theorem propose_credential_not_for_other_step {SK PK Proof Rand : Type} (V : Vrf SK PK Proof Rand)
+    (hB : VrfBinding V) (cdf : F64 → Nat → F64) (K : List UInt8 → List UInt8) (pk : PK) (seed : List UInt8)
+    (index st : Nat) (proof : Proof) (priority priority' : List UInt8) (sub sub' : Nat) (s : Stakes)
+    (hs : seed.length = 32) (hi : index < 2 ^ 32) (hst : st < 2 ^ 32)
+    (h1 : verifyPriority V cdf K pk seed index proposeStep proof priority sub s = .accept)
+    (h2 : verifyPriority V cdf K pk seed index st proof priority' sub' s = .accept) : st = proposeStep := by
+  obtain ⟨_, hash, j, hv, _⟩ := verifyPriority_binds V cdf K pk seed index proposeStep proof priority sub s h1
+  obtain ⟨_, hash', j', hv', _⟩ := verifyPriority_binds V cdf K pk seed index st proof priority' sub' s h2
+  obtain ⟨_, hm⟩ := hB pk pk _ _ proof hash hash' hv hv'
+  have := makeM_injective seed seed proposeStep st index index hs hs (by decide) hst hi hi hm
+  exact this.2.1.symm
+
 /-! ## 7a. the live prover path: the SortitionManager's credential cache is transparent -/
 
 /-- Whatever the order of `isProposer` / `isValidator` queries, `ClearStepView` calls (queries for round r+1 before its
